@@ -1073,7 +1073,7 @@ pub fn run(cfg: &Cfg) -> Report {
     } else if cfg.tier_thorough {
         3_000_000
     } else {
-        60_000
+        400_000
     };
     for i in 0..n_random {
         case_no += 1;
